@@ -15,12 +15,13 @@ import (
 // written since the last Reset and the count of bytes handed out.
 
 type dexec struct {
-	t    *Trace
-	want string
-	res  *Result
-	spec DecoderSpec
-	step int
-	clk  *taskClock
+	nilStart int // writer (0, nil) answers before the current call
+	t        *Trace
+	want     string
+	res      *Result
+	spec     DecoderSpec
+	step     int
+	clk      *taskClock
 
 	buf *lz.DecoderBuffer
 	dec *lz.Decoder
@@ -303,9 +304,11 @@ func (x *dexec) validRefused(opName string, g int, err error) {
 	x.fail("C07", "valid_refused", sig, "%s: well-formed item of %d bytes refused with %s (WindowSize %d, BufferSize %d)", opName, g, errName(err), x.ws, x.bs)
 }
 
-func (x *dexec) wrCallsStart() int { return x.wr.calls }
+func (x *dexec) wrCallsStart() int { x.nilStart = x.wr.nilAns; return x.wr.calls }
 
 func (x *dexec) wrCallsCheck(opName string, start, bound int) {
+	// every (0, nil) answer of the writer may cost the call two more attempts
+	bound += 2 * (x.wr.nilAns - x.nilStart)
 	if x.wr.calls-start > bound {
 		x.fail("C06", "writer_calls_unbounded", "", "%s invoked the writer %d times (bound %d)", opName, x.wr.calls-start, bound)
 	}
